@@ -575,10 +575,11 @@ impl SockSys {
     fn probe_sweep(&mut self) -> Result<(), Violation> {
         let dsts = [AddrSel::A1, AddrSel::A2, AddrSel::B1, AddrSel::Lo, AddrSel::Unknown];
         let mut tag: u8 = 0;
-        // --- UDP
+        // --- UDP (the unspecified address is a destination nobody owns either)
+        let udp_dsts = [AddrSel::A1, AddrSel::A2, AddrSel::B1, AddrSel::Lo, AddrSel::Unknown, AddrSel::Wild];
         for from in 0..2usize {
             let pid = from; // probe sockets are model entries 0 and 1
-            for &d in &dsts {
+            for &d in &udp_dsts {
                 for &port in &[P, Q] {
                     tag += 1;
                     let ip = self.a.get(d);
@@ -587,6 +588,10 @@ impl SockSys {
                     let Handle::Udp(ps) = &self.handles[pid] else { unreachable!() };
                     let r = ps.try_send_to(&[tag], SocketAddr::new(ip, port));
                     if let Err(e) = r {
+                        if d == AddrSel::Wild {
+                            // refusing to send to the unspecified address is fine
+                            continue;
+                        }
                         return Err(Violation::new("probe-send", format!("{what}: send failed {}", errk(&e))));
                     }
                     let mut ex = Executor::new();
